@@ -7,7 +7,7 @@ BASE = {
     "kinds_of_tmpl": ["fn", "fn", "fn", "pure", "method", "classmethod", "staticmethod", "proxy", "plain"],
     "item_faults": 0.0, "flush_faults": 0.0, "base_exc": 0.0, "tree_only": False, "yield_only": True,
     "p_lazy": 0.08, "p_item": 0.4, "p_call": 0.45, "keys": 6, "ctx_faults": 0.0, "p_timer": 0.0,
-    "p_item_value_sync": 0.0,
+    "p_item_value_sync": 0.0, "flush_reenter": 0.0,
 }
 
 
@@ -50,6 +50,15 @@ def gen_program(rng, cfg):
     }
     if cfg["tree_only"]:
         spec["tree_only"] = True
+    if rng.random() < cfg.get("p_debug_kinds", 0.25):
+        dk = [k for k in range(cfg["kinds"]) if rng.random() < 0.5]
+        if dk:
+            spec["debug_kinds"] = dk
+            spec["faults"]["items"] = {k: v for k, v in spec["faults"]["items"].items() if int(k.split(":")[0]) not in dk}
+            spec["faults"]["flushes"] = {k: v for k, v in spec["faults"]["flushes"].items() if int(k.split("#")[0]) not in dk}
+    if any(p.get("reenter") for p in spec["faults"]["flushes"].values()):
+        spec["yield_only"] = False
+        spec["reentry"] = True
     return spec
 
 
@@ -82,9 +91,45 @@ def _gen_faults(rng, cfg):
                             plan["base"] = True
                     if rng.random() < 0.4:
                         plan["new_items"] = rng.randint(1, 3)
+                    if rng.random() < cfg.get("flush_reenter", 0.0):
+                        plan["reenter"] = rng.randint(1, 3)
                     if plan:
                         f["flushes"]["%d#%d" % (k, o)] = plan
     return f
+
+
+def motif_shared_override(rng):
+    """A pending overriding task awaited by several tasks that each override the same scoped
+    value, each with a private child that reads across several flushes (parametrised)."""
+    n = rng.randint(2, 4)
+    k = rng.randint(1, 3)
+    kinds = rng.randint(1, 2)
+    sv = rng.randint(0, 1)
+
+    def ov(v):
+        return ["sv", sv, v] if rng.random() < 0.7 else ["attr", v]
+
+    def items(m):
+        return [["y", ["item", rng.randint(0, kinds - 1), rng.randint(0, 5)]] for _ in range(m)]
+
+    cont = rng.choice(["t", "l"])
+    idx_s = n + 1
+    idx_side = n + 2
+    root = [["c", ["call", idx_s, []]]]
+    consumers = [["call", i + 1, [0]] for i in range(n)]
+    root.append(["y", [cont, consumers]])
+    templates = [{"kind": "fn", "steps": root}]
+    for i in range(n):
+        pair = [["ref", 0], ["call", idx_side, []]]
+        if rng.random() < 0.5:
+            pair.reverse()
+        body = [["y", [rng.choice(["t", "l"]), pair]]] + items(rng.randint(0, 1))
+        templates.append({"kind": rng.choice(["fn", "method", "pure"]), "steps": [["with", ov(10 + i), body]]})
+    templates.append({"kind": "fn", "steps": [["with", ov(99), items(k + 1)]]})
+    templates.append({"kind": "fn", "steps": items(k + 1)})
+    return {"templates": templates, "root": {"tmpl": 0, "conv": rng.choice(["call", "value", "wrapped"])},
+            "kinds": kinds, "svs": 2, "yield_only": True, "reentry": False,
+            "faults": {"items": {}, "flushes": {}, "ctx": {}}, "prio": gen_prio(rng, kinds)}
 
 
 def _has_yield(steps):
